@@ -81,26 +81,26 @@ Print Assumptions c02_issuer_witness_class.
 
 (* necessity: each of these conjuncts of the defence, switched off alone, admits a wrapping document that is
    accepted with the attacker's identity (not covered) and that the code as it is rejects *)
-Theorem c02_necessity_uri : admits_wrapping no_uri Ex.doc_uri.
+Theorem c02_necessity_uri : permits_wrapping no_uri Ex.doc_uri.
 Proof. exact necessity_uri. Qed.
 Print Assumptions c02_necessity_uri.
-Theorem c02_necessity_duplicate_id : admits_wrapping no_dup Ex.doc_dup.
+Theorem c02_necessity_duplicate_id : permits_wrapping no_dup Ex.doc_dup.
 Proof. exact necessity_dup. Qed.
 Print Assumptions c02_necessity_duplicate_id.
-Theorem c02_necessity_node_id : admits_wrapping no_nodeid Ex.doc_nodeid.
+Theorem c02_necessity_node_id : permits_wrapping no_nodeid Ex.doc_nodeid.
 Proof. exact necessity_nodeid. Qed.
 Print Assumptions c02_necessity_node_id.
 (* the one-signature test itself is necessary: without it (and nothing else changed) the F1 witness is accepted *)
-Theorem c02_necessity_one_signature : admits_wrapping no_onesig Ex.doc_f1.
+Theorem c02_necessity_one_signature : permits_wrapping no_onesig Ex.doc_f1.
 Proof. exact necessity_onesig. Qed.
 Print Assumptions c02_necessity_one_signature.
 
 (* a nested earlier signature admits a wrapping document when only direct children are inspected *)
-Theorem c02_necessity_first_signature_is_child : admits_wrapping no_iter doc_nested_first.
+Theorem c02_necessity_first_signature_is_child : permits_wrapping no_iter doc_nested_first.
 Proof. exact necessity_first_signature_is_child. Qed.
 Print Assumptions c02_necessity_first_signature_is_child.
 (* a case-insensitive comparison of the Reference URI with the ID admits one *)
-Theorem c02_necessity_exact_id : admits_wrapping no_exact doc_case_id.
+Theorem c02_necessity_exact_id : permits_wrapping no_exact doc_case_id.
 Proof. exact necessity_exact_id. Qed.
 Print Assumptions c02_necessity_exact_id.
 
